@@ -8,6 +8,7 @@ from .smt import AND, OR, NOT, ITE, EQ, IMPLIES
 from .sx import Ctl, exc_is_subclass, is_exception_class
 
 MAX_INLINE_DEPTH = 12
+KIND_CLASS = {"str": "str", "QN": "QualifiedName", "Lit": "Literal", "DT": "datetime", "bool": "bool", "Flt": "float"}
 
 VALUE_BUILD = {
     # value class -> (type, constructor pattern over fields, consistency checks)
@@ -153,6 +154,14 @@ def contract_env(ex, c, fi, args, kwargs, st, node, for_construct=False):
     for n, t in c.params:
         v = env[n]
         if isinstance(v, SV):
+            if v.ty == T.VAL and t != T.VAL and not st.spec:
+                # dynamic type of the argument must be what the callee's contract is stated for
+                tt, _ = ex.isinstance_term(v, [KIND_CLASS[t.kind]]) if t.kind in KIND_CLASS else ("false", None)
+                ex.cx.oblige("call:%s/arg-type:%s@%s" % (short(c.target), n, getattr(node, "lineno", "?")), st, tt,
+                             {"kind": "precondition", "callee": c.target})
+            if v.ty.kind == "opt" and t.kind != "opt" and t != T.VAL and not st.spec:
+                ex.cx.oblige("call:%s/arg-not-none:%s@%s" % (short(c.target), n, getattr(node, "lineno", "?")), st,
+                             NOT(ex.cx.sorts.is_none(v.ty.args[0], v.t)), {"kind": "precondition", "callee": c.target})
             env[n] = ex.coerce(v, t, "argument %s of %s" % (n, c.target))
         elif t != T.PYOBJ:
             env[n] = ex.bi.lower(v, t, st, "argument %s of %s" % (n, c.target))
@@ -334,6 +343,7 @@ def verify_contract(ex, c):
 
     def on_ret(s, v):
         cx.exits += 1
+        cx.cover(T0 + "/exit", s)
         if is_value_init:
             v = build_value(ex, fi.cls.name, newobj, s, T0)
         if c.ret == T.NONE:
@@ -346,6 +356,7 @@ def verify_contract(ex, c):
             res = ex.bi.lower(v, c.ret, s, "return value of " + c.target)
         penv = dict(pre.env)
         penv["result"] = res
+        penv["$locals"] = s.env
         # ghost updates happen at the normal exit
         for objexpr, field, ve in c.ghost_sets:
             ps = s.copy(env=penv, spec=True, old=pre, fn=fi)
@@ -361,6 +372,7 @@ def verify_contract(ex, c):
 
     def on_exc(s, exc):
         cx.exits += 1
+        cx.cover(T0 + "/exit-" + exc.cls, s)
         line = getattr(exc.node, "lineno", "?")
         matching = [R for R in c.raises if exc_is_subclass(ex.repo, exc.cls, R.exc)]
         if not matching:
